@@ -5,14 +5,14 @@ package conv
 // Contracts for the verifier in /verif (comment-only file; no declarations).
 
 //@ func IntsToUints(ints) returns (r)
-//@   locals result, i, v
+//@   locals result, i@loop, v@loop
 //@   assigns nothing
 //@   fresh r
 //@   ensures [C08.conv-ints] len(r) == len(ints) && forall(k, 0, len(ints), r[k] == ints[k])
 //@   loop 0 invariant [C08.conv-loop] -1 <= rangeindex && rangeindex < len(ints) && len(result) == len(ints) && forall(k, 0, rangeindex + 1, result[k] == ints[k])
 
 //@ func UintsToInts(uints) returns (r)
-//@   locals result, i, v
+//@   locals result, i@loop, v@loop
 //@   assigns nothing
 //@   fresh r
 //@   ensures [C08.conv-uints] len(r) == len(uints) && forall(k, 0, len(uints), r[k] == uints[k] && r[k] >= 0)
